@@ -288,10 +288,15 @@ func (s *SwapStateMachine) exponentialBackoffAndJitter() {
 
 // Recover tries to continue from the current state, by doing the associated Action
 func (s *SwapStateMachine) Recover() (bool, error) {
-	log.Infof("[Swap:%s]: Recovering from state %s", s.SwapId.String(), s.Current)
-	state, ok := s.States[s.Current]
+	// The swap is already in the active map and messages for it may be
+	// handled right now: read its state under the mutex.
+	s.mutex.Lock()
+	current := s.Current
+	s.mutex.Unlock()
+	log.Infof("[Swap:%s]: Recovering from state %s", s.SwapId.String(), current)
+	state, ok := s.States[current]
 	if !ok {
-		return false, fmt.Errorf("unknown state: %s for swap %s", s.Current, s.SwapId.String())
+		return false, fmt.Errorf("unknown state: %s for swap %s", current, s.SwapId.String())
 	}
 
 	if state.FailOnrecover {
